@@ -196,8 +196,14 @@ class ExtraOps:
     def payload_rows(self, node):
         """Rows held by a payload attached to a marker node (keyed by name)."""
         p = node.payload
+        self.w.fault.suspended = True
+        try:
+            return self._payload_rows(node, p)
+        finally:
+            self.w.fault.suspended = False
+
+    def _payload_rows(self, node, p):
         if isinstance(p, sql.Payload):
-            import sqlalchemy as sa
 
             cols = sorted(node.columns, key=lambda t: t.qualified_name)
             ex = self.w.sql.select_items([(t, p.columns_available[t]) for t in cols], p.from_clause)
